@@ -14,7 +14,8 @@ def catalogue(K):
         dict(name="t", size=[0, K], fields=[f("id", t_int((0, 100)), "Unique"), f("a", t_int((0, 10))), f("b", t_opt(t_float((-5.0, 5.0)))), f("c", t_int((1, 1), (2, 2), (3, 3))),
                                             f("g", t_int((-3, 3))), f("k", t_int((0, 50)), "Unique"), f("n", t_opt(t_int((0, 9))), "Unique")]),
         dict(name="w", size=[0, 1], fields=[f("id", t_int((0, 100)), "PrimaryKey"), f("y", t_float((0.0, 1.0)))]),
-        dict(name="u", size=[0, K], fields=[f("id", t_int((0, 100)), "PrimaryKey"), f("x", t_float((0.0, 10.0))), f("d", t_opt(t_int((-3, 3)))), f("a", t_int((5, 20))), f("k", t_int((0, 50)), "Unique")]),
+        dict(name="u", size=[0, K], fields=[f("id", t_int((0, 100)), "PrimaryKey"), f("x", t_float((0.0, 10.0))), f("d", t_opt(t_int((-3, 3)))), f("a", t_int((5, 20))), f("k", t_int((0, 50)), "Unique"),
+                                            f("tid", t_int((0, 100)), "ForeignKey")]),
     ]
 
 
@@ -76,6 +77,12 @@ FIXED = [
     "SELECT id * c AS z, k * g AS y FROM t",
     "SELECT -id AS z, 0 - k AS y FROM t",
     "SELECT n AS z FROM t",
+    # a column declared FOREIGN KEY (a constraint that says nothing about distinctness) as grouping key, projection, join key
+    "SELECT tid, d, count(*) AS n FROM u GROUP BY tid, d",
+    "SELECT tid, count(*) AS n FROM u GROUP BY tid",
+    "SELECT tid AS z, a FROM u WHERE a > 6",
+    "SELECT t.id AS ti, u.tid AS ut FROM t JOIN u ON t.id = u.tid",
+    "SELECT t.id AS ti, u.tid AS ut, u.id AS ui FROM t LEFT JOIN u ON t.id = u.tid",
 ]
 
 
